@@ -18,7 +18,9 @@ THOROUGH_RUNS = 200000
 QUICK_BUDGET = 100
 THOROUGH_BUDGET = 1500
 RULE = ('one run = one simulated fixed-limit or no-limit hold\'em hand (2-6 players, equal stacks, no antes, known cards, any '
-        'mode and automation subset, dealing one card or several per call, histories written with compression on or off), '
+        'mode and automation subset, dealing one card or several per call, histories written with compression on or off, in half '
+        'of the runs a talking table: commentary on operations and no-operations between them - fault note_interleaved - which '
+        'the history carries as note lines at arbitrary places, also between two partial deals of one street), '
         'then the per-seat message history of the dealer->client protocol for EVERY viewer seat. Oracle: an independent '
         'renderer (ref/acpc.py) produces the expected dialogue from the operation log - one server message before each '
         'betting action and at the end, one client message after each action of the viewer, betting string f/c/r or '
@@ -50,7 +52,9 @@ def run(ch, ctx):
     cut = ch.pick('c17.cut', 60 if cut_anywhere else 30)    # chip-mechanical step is due, not only where a player is to act
     partial = None
     try:
+        talk = ch.chance('c17.talk', 1, 2)     # notes in the log: commentary on operations and no-operations between them
         world = World(ch, ctx, cfg, [], run_key=run_key_of(ch), runout_prefs=(None, 1), muck_num=0, partial_show=False,
+                      commentary_num=2 if talk else 0, chatter_num=2 if talk else 0,
                       dealer=ch.choice('c17.dealer', ('engine', 'explicit', 'counted')),
                       profile=ch.choice('c17.profile', ('balanced', 'aggressive', 'passive', 'shover')))
         st = world.state
